@@ -1,0 +1,75 @@
+//! Verification seam, compiled only with `--cfg texcraft_verif`.
+//!
+//! Modules that `use crate::verif_std as std;` under that cfg keep their source unchanged but
+//! resolve `std::sync::{Mutex, OnceLock}` to primitives whose scheduling is owned by the
+//! [shuttle](https://docs.rs/shuttle) runtime, so that a deterministic simulator decides every
+//! thread interleaving. Everything else is plain `std`.
+//!
+//! With the cfg off (the default, and the only way the crate is shipped) this file is not part
+//! of the build.
+
+pub use ::std::*;
+
+pub mod sync {
+    pub use shuttle::sync::*;
+
+    /// `std::sync::OnceLock` with the same API, built on shuttle's `Once`.
+    ///
+    /// shuttle's `Once` keeps its state per execution, so a `static` of this type starts
+    /// uninitialised in every simulated execution, like a fresh process would.
+    pub struct OnceLock<T> {
+        once: shuttle::sync::Once,
+        value: ::std::cell::UnsafeCell<Option<T>>,
+    }
+
+    // SAFETY: the value is written only inside `Once::call_once` and read only after the
+    // `Once` has completed in the current execution.
+    unsafe impl<T: Sync + Send> Sync for OnceLock<T> {}
+    unsafe impl<T: Send> Send for OnceLock<T> {}
+
+    impl<T> Default for OnceLock<T> {
+        fn default() -> Self {
+            Self::new()
+        }
+    }
+
+    impl<T> OnceLock<T> {
+        pub const fn new() -> Self {
+            OnceLock {
+                once: shuttle::sync::Once::new(),
+                value: ::std::cell::UnsafeCell::new(None),
+            }
+        }
+
+        pub fn get(&self) -> Option<&T> {
+            if self.once.is_completed() {
+                // SAFETY: see the Sync impl.
+                unsafe { (*self.value.get()).as_ref() }
+            } else {
+                None
+            }
+        }
+
+        pub fn set(&self, value: T) -> Result<(), T> {
+            let mut value = Some(value);
+            self.once.call_once(|| {
+                // SAFETY: see the Sync impl.
+                unsafe { *self.value.get() = value.take() };
+            });
+            match value {
+                None => Ok(()),
+                Some(value) => Err(value),
+            }
+        }
+
+        pub fn get_or_init<F: FnOnce() -> T>(&self, f: F) -> &T {
+            self.once.call_once(|| {
+                let value = f();
+                // SAFETY: see the Sync impl.
+                unsafe { *self.value.get() = Some(value) };
+            });
+            // SAFETY: see the Sync impl.
+            unsafe { (*self.value.get()).as_ref().unwrap() }
+        }
+    }
+}
